@@ -3,6 +3,7 @@ package sym
 import (
 	"fmt"
 	"golang.org/x/tools/go/ssa"
+	"math/big"
 	"os"
 
 	"symgo/smt"
@@ -77,5 +78,30 @@ func init() {
 			return it.bigSet(a[0], x)
 		}
 		return it.bigSet(a[0], it.C.Abs(x))
+	})
+}
+
+// bv2intSigned converts a machine integer to its mathematical value. A sum that cannot wrap under the
+// bounds of the path condition (e.g. the total of validator powers) is converted summand by summand, so
+// that the solver sees total = p1 + p2 in the Int theory instead of a bit-vector addition.
+func (it *Interp) bv2intSigned(t *smt.Term) *smt.Term {
+	if t.Op == smt.OBVAdd && it.P != nil && it.M != nil {
+		rs := it.ranges()
+		a, b := rs.srng(t.Args[0]), rs.srng(t.Args[1])
+		half := pow2big(t.Sort.W - 1)
+		lo, hi := new(big.Int).Add(a.lo, b.lo), new(big.Int).Add(a.hi, b.hi)
+		if lo.Cmp(new(big.Int).Neg(half)) >= 0 && hi.Cmp(half) < 0 {
+			return it.C.Add(it.bv2intSigned(t.Args[0]), it.bv2intSigned(t.Args[1]))
+		}
+	}
+	return it.C.BV2IntSigned(t)
+}
+
+func init() {
+	Register("math/big.NewInt", func(it *Interp, _ *ssa.Function, a []Value) Value {
+		return it.newBig(it.bv2intSigned(a[0].(*smt.Term)))
+	})
+	Register("(*math/big.Int).SetInt64", func(it *Interp, _ *ssa.Function, a []Value) Value {
+		return it.bigSet(a[0], it.bv2intSigned(a[1].(*smt.Term)))
 	})
 }
